@@ -9,6 +9,9 @@ ALL = [f"C{i:02d}" for i in range(1, 20)]
 
 # id -> (category, technique, level text, level note, design ref)
 CHECKS = {
+    "C01": ("exploration", "complete product lattices + select-signature boundary refinement (bisection of every region change to adjacent floats) + regular rate lattices, wide-precision filter with exact multiprecision decision",
+            "For 14 algorithms x 2 precisions the package-expanded graph is evaluated on the full product of a boundary lattice (all binades, every graph constant +-2 ULP, specials, infinities), on both sides (+-2 ULP) of every region boundary found by bisecting branch-signature changes along lattice rows and columns, and on two regular rate lattices; every point not within 1 ULP of an independent wider-precision evaluation is decided by mpmath at two precisions (16-ULP bound, spurious NaN/inf/sign, Annex-G limits where two sources agree, 99.9 % target rate). A sub-lattice is replayed through the emitted NumPy code each run (bit identity).",
+            "Trusts NumPy arithmetic, the wide-precision NumPy functions only as an accept-filter, mpmath under two-precision agreement. Inputs off the enumerated lattices are not covered.", "DESIGN.md §2 C01"),
     "C02": ("exploration", "exhaustive enumeration of all 2^32 float32 inputs (thorough) / a complete coset + threshold neighbourhoods (quick); float64 and hypot product lattices; exact multiprecision decision of every reported count",
             "Every float32 input of each unary real algorithm is evaluated (thorough tier) through an interpreter that is bit-identical to the emitted NumPy code; a float64 filter selects the points whose error could reach 3 ULP or that sit near a rounding boundary and those are decided exactly with mpmath at two precisions. NaN-set, limits at inf/0, the 4/5-ULP bound and the 1e-5 rate are judged on the complete enumeration.",
             "Trusts NumPy float32/float64 arithmetic (IEEE), float64 libm only as a filter, mpmath under two-precision agreement. float64 inputs and hypot pairs are covered on stated lattices only.", "DESIGN.md §2 C02"),
